@@ -310,8 +310,9 @@ pub fn explore(layout: &Layout, alphabet: &[KeyCode], opts: &Opts) -> LayoutResu
           if press { insert_sorted(&mut phys, &k); } else { remove_sorted(&mut phys, &k); }
           let uncertain_abs = !s.mon.maybe_abs.is_empty();
           // ---- reference: what fires?
+          let acted_r: Option<bool> = if in_phys && info.has_abs && info.absorbable.contains(&k) { None } else { acted };
           let mut q_phys: Vec<usize> = vec![];
-          if press && acted != Some(false) {
+          if press && acted_r != Some(false) {
             if let Some(g) = info.by_final.get(&k) {
               for &i in g { let m = &ms[i as usize]; if m.from[..m.from.len() - 1].iter().all(|f| s.phys.contains(f)) { q_phys.push(i as usize); } }
             }
@@ -319,6 +320,16 @@ pub fn explore(layout: &Layout, alphabet: &[KeyCode], opts: &Opts) -> LayoutResu
           let firing = if !press || acted == Some(false) || q_phys.is_empty() { Firing::Nothing }
             else if !uncertain_abs && acted == Some(true) { Firing::Certain(*q_phys.last().unwrap()) }
             else { Firing::Unknown(q_phys.clone()) };
+          // What the other properties may rely on in layouts with absorbing mappings: whether an absorbable key that is
+          // physically down is still "considered held", and which of several candidates fires when one of them needs an
+          // absorbable key, is C08's subject — C05/C07/C09 treat both as open there (no cascade alarms, DESIGN §3.3).
+          let firing_r = if !press || acted_r == Some(false) || q_phys.is_empty() { Firing::Nothing }
+            else if acted_r.is_none() { Firing::Unknown(q_phys.clone()) }
+            else { match &firing {
+              Firing::Certain(i) if info.has_abs && q_phys.iter().any(|&j| ms[j].from[..ms[j].from.len() - 1].iter().any(|f| info.absorbable.contains(f))) => Firing::Unknown(q_phys.clone()),
+              Firing::Nothing => Firing::Unknown(q_phys.clone()),
+              f => f.clone(),
+            } };
           let mentioned_by_e = !info.has_abs && press && acted == Some(true) && q_phys.is_empty()
             && s.mon.e.iter().any(|&i| ms[i as usize].from.contains(&k) || ms[i as usize].to.contains(&k));
           // E (plain rule)
@@ -338,11 +349,13 @@ pub fn explore(layout: &Layout, alphabet: &[KeyCode], opts: &Opts) -> LayoutResu
             info.by_final.get(&k).map(|g| g.iter().map(|i| *i as usize).filter(|&i| info.unique_out[i].iter().any(|x| r.events.contains(&Pressed(*x)))).collect()).unwrap_or_default()
           } else { vec![] };
           let certain_fired: Option<usize> = match &firing { Firing::Certain(i) => Some(*i), Firing::Unknown(_) if obs_fired.len() == 1 => Some(obs_fired[0]), _ => None };
+          let certain_fired_r: Option<usize> = match &firing_r { Firing::Certain(i) => Some(*i), Firing::Unknown(_) if obs_fired.len() == 1 => Some(obs_fired[0]), _ => None };
           let pressed_all: Vec<KeyCode> = r.events.iter().filter_map(|e| if let Pressed(x) = e { Some(*x) } else { None }).collect();
           // the observation does not show a different mapping at work / shows all of the predicted mapping's keys
           let no_other_pressed = match certain_fired { Some(i) => pressed_all.iter().all(|x| ms[i].to.contains(x)), None => true };
           let all_pressed = match certain_fired { Some(i) => ms[i].to.iter().all(|x| is_mod(x) || pressed_all.contains(x)), None => true };
           let step_consistent = no_other_pressed && all_pressed;
+          let no_other_pressed_r = match certain_fired_r { Some(i) => pressed_all.iter().all(|x| ms[i].to.contains(x)), None => true };
           let fires_norepeat_exact = match &firing { Firing::Certain(i) => ms[*i].repeat != Repeat::Normal, _ => false };
           // over-approximation for uncertain situations: some no-repeat mapping could fire on this press
           let fires_norepeat_may = press && q_phys.iter().any(|&i| ms[i].repeat != Repeat::Normal);
@@ -486,7 +499,7 @@ pub fn explore(layout: &Layout, alphabet: &[KeyCode], opts: &Opts) -> LayoutResu
 
           // ---- C07
           if want(P_C07) {
-            if let Some(mi) = certain_fired.filter(|_| no_other_pressed) {
+            if let Some(mi) = certain_fired_r.filter(|_| no_other_pressed_r) {
               let m = &ms[mi];
               if m.repeat != Repeat::Normal {
                 *ante.entry("C07_norepeat_fired").or_insert(0) += 1; nontrivial = true;
@@ -499,10 +512,10 @@ pub fn explore(layout: &Layout, alphabet: &[KeyCode], opts: &Opts) -> LayoutResu
               }
             }
           }
-          if press && acted != Some(false) {
-            mon.nr = match certain_fired.filter(|_| no_other_pressed) { Some(mi) => ms[mi].repeat != Repeat::Normal, None => false };
+          if press && acted_r != Some(false) {
+            mon.nr = match certain_fired_r.filter(|_| no_other_pressed_r) { Some(mi) => ms[mi].repeat != Repeat::Normal, None => false };
           }
-          if want(P_C07) && mon.nr && !(press && acted != Some(false)) {
+          if want(P_C07) && mon.nr && !(press && acted_r != Some(false)) {
             *ante.entry("C07_steps_while_nr").or_insert(0) += 1;
             if out.iter().any(|x| !is_mod(x)) { rec.report(P_C07, "key-held-again", None, &full_path, &|| format!("{} after a no-repeat firing made {:?} held; step output {}", inp.short(), out, events_str(&r.events))); }
           }
@@ -557,13 +570,13 @@ pub fn explore(layout: &Layout, alphabet: &[KeyCode], opts: &Opts) -> LayoutResu
             let rep = &r.repeat;
             let mut allowed: Vec<ResultingRepeat> = vec![];
             let mut allow_ignored = false;
-            match acted {
+            match acted_r {
               Some(false) => { allow_ignored = true; }
               Some(true) | None => {
-                if acted.is_none() { allow_ignored = true; }
+                if acted_r.is_none() { allow_ignored = true; }
                 if !press { allowed.push(ResultingRepeat::Disabled); }
                 else {
-                  match (&firing, certain_fired.filter(|_| no_other_pressed)) {
+                  match (&firing_r, certain_fired_r.filter(|_| no_other_pressed_r)) {
                     (Firing::Nothing, _) => allowed.push(ResultingRepeat::Disabled),
                     (_, Some(mi)) => allowed.push(repeat_of(&ms[mi])),
                     // which mapping fired is not fixed by any statement here (or another mapping observably fired,
@@ -575,10 +588,10 @@ pub fn explore(layout: &Layout, alphabet: &[KeyCode], opts: &Opts) -> LayoutResu
             }
             let ok = allowed.contains(rep) || (allow_ignored && *rep == ResultingRepeat::NoChange && r.events.is_empty());
             if matches!(rep, ResultingRepeat::Repeating { .. }) { *ante.entry("C09_repeating_issued").or_insert(0) += 1; nontrivial = true; }
-            if acted == Some(false) { *ante.entry("C09_ignored_events").or_insert(0) += 1; }
+            if acted_r == Some(false) { *ante.entry("C09_ignored_events").or_insert(0) += 1; }
             if !ok {
-              let clause: &'static str = if acted == Some(false) { "ignored-event-changes-repeat-or-emits" } else if matches!(rep, ResultingRepeat::NoChange) { "acted-event-leaves-repeat-unchanged" } else { "wrong-repeat-instruction" };
-              rec.report(P_C09, clause, None, &full_path, &|| format!("{} (acted={:?}) returned repeat {} with {}; allowed {:?}{}", inp.short(), acted, repeat_json(rep), events_str(&r.events), allowed.iter().map(repeat_json).collect::<Vec<_>>(), if allow_ignored { " or (no events, NoChange)" } else { "" }));
+              let clause: &'static str = if acted_r == Some(false) { "ignored-event-changes-repeat-or-emits" } else if matches!(rep, ResultingRepeat::NoChange) { "acted-event-leaves-repeat-unchanged" } else { "wrong-repeat-instruction" };
+              rec.report(P_C09, clause, None, &full_path, &|| format!("{} (acted={:?}) returned repeat {} with {}; allowed {:?}{}", inp.short(), acted_r, repeat_json(rep), events_str(&r.events), allowed.iter().map(repeat_json).collect::<Vec<_>>(), if allow_ignored { " or (no events, NoChange)" } else { "" }));
             }
           }
 
